@@ -39,6 +39,14 @@ def isar_friendly_schema(rng):
     sch = S.random_schema(rng, ntypes=rng.randint(3, 9))
     k = 0
     fixed = [d.name for d in sch.defs if d.kind in ('struct', 'union', 'enum') and S.type_stiffness(sch, d.name) == S.FIXED_S]
+    # constants built on each other without blanks around the operators, used as array sizes
+    a, b = rng.randint(1, 3), rng.randint(2, 3)
+    sch.add(S.Const('XK1', a))
+    sch.add(S.Const('XK2', a * b, 'XK1*%d' % b))
+    sch.add(S.Const('XK3', a + a * b + 1, '(XK1+XK2)+1'))
+    sch.add(S.Struct('XD', [S.Member('p', 'u8', S.FIXED, a * b, size_text='XK2'),
+                            S.Member('q', 'u16', S.LIMITED, a + a * b + 1, size_text='XK3'),
+                            S.Member('r', 'u32', S.FIXED, a, size_text='XK1')]))
     for name_form in ('len', 'numOf', 'neg'):
         k += 1
         if name_form == 'len':
